@@ -206,6 +206,21 @@ func (c *sgraphCase) observe() (o string) {
 		return "(RError " + ekind(err) + ")"
 	}
 	m.GetOperator = symGetter
+	// what the introspection methods hand out belongs to the caller: editing it may not change what Run enforces
+	func() {
+		defer func() { recover() }()
+		shapes := m.InputShapes()
+		for n, sh := range shapes {
+			for i := range sh {
+				sh[i] = onnx.Dim{IsDynamic: false, Size: 977}
+			}
+			delete(shapes, n)
+		}
+		names := m.InputNames()
+		for i := range names {
+			names[i] = "scrambled"
+		}
+	}()
 	in := gonnx.Tensors{}
 	for n, v := range c.feed {
 		in[n] = mkSym(v)
